@@ -1089,7 +1089,7 @@ pub fn run(opts: &Opts) -> i32 {
             level: "exploration",
             evaluations: agg.hist + agg.prog_cases + agg.prog_faulted,
             distinct_nontrivial: (hist_nt.len() + prog_nt.len()) as u64,
-            rule: "histories: seeded legal operation sequences (len 5..60/120, 3 slots, 3 values, swarm weights, capacity 2..8 in a third of runs); non-trivial = contains a commit discarding >=2 alternatives that wrote the same slot, or a rollback after a commit that changes a slot; distinct by hash of the operation list. VM cases: (pattern,text,pos) on the backtracking VM, non-trivial = at least one commit discarded an alternative or a negative look-around unwound; distinct by hash of the triple".into(),
+            rule: "histories: seeded legal operation sequences (len 5..60/120, 3 slots, 3 values, swarm weights, capacity 2..8 in a third of runs; one in twelve is a large-commit history: one or two nested groups over 8..40 alternatives that each write most of 3..6 slots, the commit, then abandoning what is older; plus the fixed wrap-window histories around 2^8 and 2^16 quiet operations); non-trivial = contains a commit discarding >=2 alternatives that wrote the same slot, or a rollback after a commit that changes a slot; distinct by hash of the operation list. VM cases: (pattern,text,pos) on the backtracking VM, non-trivial = at least one commit discarded an alternative or a negative look-around unwound; distinct by hash of the triple; besides the State-level rules, every result is checked for a group inside a negative look-around being set".into(),
             samples,
             extra,
             assumptions: vec![
